@@ -295,3 +295,315 @@ Proof.
       rewrite (Z.eqb_sym (m_qid y)), (Z.eqb_sym (m_id y)). reflexivity.
     + reflexivity.
 Qed.
+
+(* ====================================================================================== *)
+(* more on sorted stores: filters and key-preserving maps keep them sorted                  *)
+(* ====================================================================================== *)
+Lemma ssorted_filter {A} (lt : A -> A -> bool) (f : A -> bool) l : ssorted A lt l -> ssorted A lt (filter f l).
+Proof.
+  unfold ssorted. induction 1 as [|z t Hs IH Hz]; cbn [filter]; [constructor|].
+  destruct (f z); [|exact IH]. constructor; [exact IH|].
+  rewrite Forall_forall in *. intros a Ha. apply filter_In in Ha. apply Hz. tauto.
+Qed.
+
+Lemma ssorted_map_key {A} (lt : A -> A -> bool) (g : A -> A) l :
+  (forall a b, lt (g a) (g b) = lt a b) -> ssorted A lt l -> ssorted A lt (map g l).
+Proof.
+  intros Hg. unfold ssorted. induction 1 as [|z t Hs IH Hz]; cbn [map]; constructor; [exact IH|].
+  rewrite Forall_forall in *. intros a Ha. apply in_map_iff in Ha. destruct Ha as (b & <- & Hb). rewrite Hg. apply Hz. exact Hb.
+Qed.
+
+Lemma meta_keq_lt_r a b c : meta_key_eq a b = true -> meta_lt c b = meta_lt c a.
+Proof. intros H. apply meta_keq_spec in H. destruct H as [H1 H2]. unfold meta_lt. rewrite H1, H2. reflexivity. Qed.
+
+Lemma metas_key_unique l a b : metas_sorted l -> In a l -> In b l -> meta_key_eq a b = true -> a = b.
+Proof. apply sorted_key_unique. exact meta_keq_lt. Qed.
+
+Lemma meta_set_in x l y : In y (meta_set x l) -> y = x \/ In y l.
+Proof. apply sset_in. Qed.
+Lemma meta_set_keeps x l y : In y l -> meta_key_eq x y = false -> In y (meta_set x l).
+Proof. apply sset_keeps. Qed.
+Lemma meta_set_has x l : In x (meta_set x l).
+Proof. apply sset_has. Qed.
+
+(* ====================================================================================== *)
+(* accepted reports: the new Reports store is a Set of one report of this reporter          *)
+(* ====================================================================================== *)
+Definition frame_eq (s s' : ostate) : Prop :=
+  o_seq s' = o_seq s /\ o_cycle s' = o_cycle s /\ o_aggs s' = o_aggs s /\ o_nonces s' = o_nonces s.
+
+Lemma set_value_shape s h m rep pw inc vok s' :
+  set_value s h m rep pw inc vok = inl s' ->
+  o_reports s' = rep_set {| rp_qid := m_qid m; rp_reporter := rep; rp_meta := m_id m; rp_power := pw; rp_cycle := inc; rp_height := h |} (o_reports s)
+  /\ frame_eq s s'.
+Proof.
+  unfold set_value. destruct vok; cbn [negb]; [|discriminate]. intros E. injection E as <-. cbn. unfold frame_eq. cbn. auto.
+Qed.
+
+Lemma deposit_reveal_shape s h m rep pw vok s' :
+  deposit_reveal s h m rep pw vok = inl s' ->
+  exists meta inc,
+    o_reports s' = rep_set {| rp_qid := m_qid m; rp_reporter := rep; rp_meta := meta; rp_power := pw; rp_cycle := inc; rp_height := h |} (o_reports s)
+    /\ frame_eq s s'.
+Proof.
+  unfold deposit_reveal.
+  destruct ((m_amount m =? 0) && (m_expiration m <=? h)).
+  - cbn [m_expiration]. destruct (h + m_window m <? h); [discriminate|]. intros E.
+    apply set_value_shape in E. cbn in E. destruct E as [E1 E2]. do 2 eexists. split; [exact E1|]. exact E2.
+  - destruct ((0 <? m_amount m) && (m_expiration m <=? h)).
+    + unfold set_amount_exp. cbn [m_expiration]. destruct (h + m_window m <? h); [discriminate|]. intros E.
+      apply set_value_shape in E. cbn in E. destruct E as [E1 E2]. do 2 eexists. split; [exact E1|]. exact E2.
+    + destruct (m_expiration m <? h); [discriminate|]. intros E.
+      apply set_value_shape in E. destruct E as [E1 E2]. do 2 eexists. split; [exact E1|]. exact E2.
+Qed.
+
+Lemma submit_value_shape s h q rep stake mn vok s' :
+  submit_value s h q rep stake mn vok = inl s' ->
+  exists st meta inc, stake = Some st /\
+    o_reports s' = rep_set {| rp_qid := qi_id q; rp_reporter := rep; rp_meta := meta; rp_power := Z.quot st 1000000; rp_cycle := inc; rp_height := h |} (o_reports s)
+    /\ frame_eq s s'.
+Proof.
+  unfold submit_value.
+  destruct (qi_kind q) eqn:Ek; try discriminate;
+  (destruct stake as [st|]; [|discriminate]); (destruct (st <? mn); [discriminate|]);
+  (destruct (current_query (qi_id q) (o_queries s)) as [m|] eqn:Ec;
+   [destruct (current_query_in _ _ _ Ec) as [_ Hq]|]); cbn [negb]; try discriminate.
+  - destruct ((m_amount m =? 0) && negb (m_cycle m)); [discriminate|]. destruct (m_expiration m <? h); [discriminate|].
+    intros E. apply set_value_shape in E. rewrite Hq in E. destruct E as [E1 E2]. exists st. do 2 eexists. split; [reflexivity|]. split; [exact E1 | exact E2].
+  - intros E. apply deposit_reveal_shape in E. rewrite Hq in E. destruct E as (meta & inc & E1 & E2). exists st, meta, inc. auto.
+  - intros E. apply deposit_reveal_shape in E. cbn [m_qid o_reports] in E. destruct E as (meta & inc & E1 & E2).
+    exists st, meta, inc. split; [reflexivity|]. split; [exact E1|]. unfold frame_eq in *. cbn in E2. exact E2.
+  - destruct ((m_amount m =? 0) && negb (m_cycle m)); [discriminate|]. destruct (m_expiration m <? h); discriminate.
+Qed.
+
+(* the property clause: a reporter's later report in the same round replaces the earlier one *)
+Theorem submit_replaces s h q rep stake mn vok s' :
+  reports_sorted (o_reports s) -> submit_value s h q rep stake mn vok = inl s' ->
+  exists r, rp_qid r = qi_id q /\ rp_reporter r = rep /\ rp_height r = h /\
+    reports_sorted (o_reports s') /\ In r (o_reports s') /\
+    (forall y, In y (o_reports s') -> rep_key_eq r y = true -> y = r) /\
+    (forall y, In y (o_reports s) -> rep_key_eq r y = false -> In y (o_reports s')) /\
+    (forall y, In y (o_reports s') -> y = r \/ In y (o_reports s)).
+Proof.
+  intros Hs E. apply submit_value_shape in E. destruct E as (st & meta & inc & _ & E1 & _).
+  exists {| rp_qid := qi_id q; rp_reporter := rep; rp_meta := meta; rp_power := Z.quot st 1000000; rp_cycle := inc; rp_height := h |}.
+  rewrite E1. cbn [rp_qid rp_reporter rp_height]. split; [reflexivity|]. split; [reflexivity|]. split; [reflexivity|].
+  split; [|split; [|split; [|split]]].
+  - apply rep_set_sorted. exact Hs.
+  - apply sset_has.
+  - intros y Hy Hk. eapply later_report_replaces; eassumption.
+  - intros y Hy Hk. apply sset_keeps; assumption.
+  - intros y Hy. apply sset_in in Hy. exact Hy.
+Qed.
+
+(* ====================================================================================== *)
+(* the end blocker creates exactly one aggregate per closing round                          *)
+(* ====================================================================================== *)
+Definition mk_agg (s : ostate) (h ts : Z) (m : qmeta) : aggr :=
+  let rs := reports_of (m_id m) (o_reports s) in
+  {| ag_qid := m_qid m; ag_ts := ts; ag_height := h; ag_nonce := nonce_get (m_qid m) (o_nonces s) + 1; ag_meta := m_id m;
+     ag_reporters := map rp_reporter rs; ag_power := fold_left (fun acc r => acc + rp_power r) rs 0;
+     ag_flagged := false; ag_agg_reporter := -1; ag_micro_height := -1 |}.
+
+Lemma aggregate_round_aggs s h ts m : o_aggs (aggregate_round s h ts m) = agg_set (mk_agg s h ts m) (o_aggs s).
+Proof. reflexivity. Qed.
+
+Lemma nonce_get_set_other q q' v l : q' <> q -> nonce_get q' (nonce_set q v l) = nonce_get q' l.
+Proof.
+  intros Hn. induction l as [|x t IH]; cbn [nonce_set nonce_get fst snd].
+  - destruct (q =? q') eqn:E; [apply Z.eqb_eq in E; congruence | reflexivity].
+  - destruct (fst x =? q) eqn:E; cbn [nonce_get fst snd].
+    + apply Z.eqb_eq in E. destruct (q =? q') eqn:E1; [apply Z.eqb_eq in E1; congruence|].
+      destruct (fst x =? q') eqn:E2; [apply Z.eqb_eq in E2; congruence | reflexivity].
+    + destruct (fst x =? q'); [reflexivity | exact IH].
+Qed.
+
+Lemma nonce_get_set_same q v l : nonce_get q (nonce_set q v l) = v.
+Proof.
+  induction l as [|x t IH]; cbn [nonce_set nonce_get fst snd]; [rewrite Z.eqb_refl; reflexivity|].
+  destruct (fst x =? q) eqn:E; cbn [nonce_get fst snd]; [rewrite Z.eqb_refl; reflexivity | rewrite E; exact IH].
+Qed.
+
+Lemma agg_keq_lt a b : agg_key_eq a b = true -> agg_lt a b = false /\ agg_lt b a = false.
+Proof.
+  unfold agg_key_eq. intros H. apply andb_prop in H. destruct H as [H1 H2]. apply Z.eqb_eq in H1, H2.
+  split; apply (proj2 (bool_false_iff _ _ (agg_lt_spec _ _))); lia.
+Qed.
+
+Definition closing_distinct (h : Z) (l : list qmeta) : Prop := NoDup (map m_qid (filter (closing h) l)).
+
+(* no stored aggregate of a closing round's query carries the block's timestamp yet (block time
+   strictly increases and aggregates are stamped with the time of the block that made them) *)
+Definition fresh_ts (h ts : Z) (l : list qmeta) (aggs : list aggr) : Prop :=
+  forall m a, In m (filter (closing h) l) -> In a aggs -> ag_qid a = m_qid m -> ag_ts a <> ts.
+
+Lemma agg_fold_aggs h ts : forall l st,
+  closing_distinct h l -> fresh_ts h ts l (o_aggs st) ->
+  Permutation (o_aggs (fold_left (agg_step h ts) l st)) (map (mk_agg st h ts) (filter (closing h) l) ++ o_aggs st).
+Proof.
+  induction l as [|m t IH]; intros st Hd Hf; cbn [fold_left filter]; [reflexivity|].
+  unfold agg_step at 2. unfold closing_distinct in Hd. cbn [filter] in Hd. unfold fresh_ts in Hf. cbn [filter] in Hf.
+  fold (closing h m) in *. destruct (closing h m) eqn:Ec.
+  - cbn [map] in Hd. apply NoDup_cons_iff in Hd. destruct Hd as [Hnin Hd].
+    rewrite IH.
+    + cbn [map app]. rewrite aggregate_round_aggs.
+      assert (Hx : map (mk_agg (aggregate_round st h ts m) h ts) (filter (closing h) t) = map (mk_agg st h ts) (filter (closing h) t)).
+      { apply map_ext_in. intros m' Hm'. unfold mk_agg. cbn [aggregate_round o_reports o_nonces].
+        rewrite nonce_get_set_other; [reflexivity|]. intros Heq. apply Hnin. rewrite <- Heq. apply in_map. exact Hm'. }
+      rewrite Hx. etransitivity; [|apply Permutation_sym, Permutation_middle]. apply Permutation_app_head.
+      apply sset_fresh_perm.
+      intros y Hy. unfold agg_key_eq, mk_agg. cbn [ag_qid ag_ts].
+      destruct (m_qid m =? ag_qid y) eqn:E1; [|reflexivity]. apply Z.eqb_eq in E1. cbn [andb].
+      apply Z.eqb_neq. intros E2. eapply (Hf m y); [left; reflexivity | exact Hy | congruence | congruence].
+    + exact Hd.
+    + intros m' a Hm' Ha Hq. rewrite aggregate_round_aggs in Ha. apply sset_in in Ha. destruct Ha as [->|Ha].
+      * exfalso. apply Hnin. cbn [mk_agg ag_qid] in Hq. rewrite Hq. apply in_map. exact Hm'.
+      * eapply Hf; [right; exact Hm' | exact Ha | exact Hq].
+  - apply IH; [exact Hd | exact Hf].
+Qed.
+
+(* the end blocker's aggregation pass, as a whole *)
+Theorem set_aggregated_report_correct s h ts :
+  let s' := set_aggregated_report s h ts in
+  closing_distinct h (o_queries s) -> fresh_ts h ts (o_queries s) (o_aggs s) ->
+  (* every closing round disappears, every other round stays as it is *)
+  o_queries s' = filter (fun y => negb (existsb (fun m => closing h m && meta_key_eq m y) (o_queries s))) (o_queries s) /\
+  (* exactly one new aggregate per closing round: that round's reports, their summed power, the next sequence number *)
+  Permutation (o_aggs s') (map (mk_agg s h ts) (filter (closing h) (o_queries s)) ++ o_aggs s) /\
+  o_reports s' = o_reports s /\ o_cycle s' = o_cycle s /\ o_seq s' = o_seq s.
+Proof.
+  intros s' Hd Hf. unfold s'. rewrite set_aggregated_report_fold.
+  split; [apply agg_fold_queries|]. split; [apply agg_fold_aggs; assumption|].
+  destruct (agg_fold_frame h ts (o_queries s) s) as (H1 & H2 & H3 & _). auto.
+Qed.
+
+(* with sorted (key-unique) metas the filter is simply "not closing" *)
+Lemma closing_filter_simpl h l : metas_sorted l ->
+  filter (fun y => negb (existsb (fun m => closing h m && meta_key_eq m y) l)) l = filter (fun y => negb (closing h y)) l.
+Proof.
+  intros Hs. apply filter_ext_in. intros y Hy. f_equal.
+  destruct (closing h y) eqn:Ec.
+  - apply existsb_exists. exists y. split; [exact Hy|]. rewrite Ec. cbn. apply meta_keq_spec. auto.
+  - destruct (existsb (fun m => closing h m && meta_key_eq m y) l) eqn:Ee; [|reflexivity].
+    apply existsb_exists in Ee. destruct Ee as (m & Hm & E). apply andb_prop in E. destruct E as [E1 E2].
+    assert (m = y) by (eapply metas_key_unique; eassumption). subst m. congruence.
+Qed.
+
+Lemma set_aggregated_report_sorted s h ts : metas_sorted (o_queries s) -> metas_sorted (o_queries (set_aggregated_report s h ts)).
+Proof. intros Hs. rewrite set_aggregated_report_fold, agg_fold_queries. apply ssorted_filter. exact Hs. Qed.
+
+(* ====================================================================================== *)
+(* rotation of the cycle list                                                               *)
+(* ====================================================================================== *)
+Definition open_window_p (s : ostate) (h : Z) : bool :=
+  match nth_z (o_cycle s) (o_seq s) with
+  | Some cur => match current_query cur (o_queries s) with Some m => h <? m_expiration m | None => false end
+  | None => false
+  end.
+
+Definition cycle_ok (s : ostate) : Prop := 0 <= o_seq s < Z.of_nat (List.length (o_cycle s)).
+
+Lemma do_rotate_seq s h k s' : cycle_ok s -> do_rotate s h k = Some s' ->
+  o_seq s' = (o_seq s + 1) mod Z.of_nat (List.length (o_cycle s)) /\ o_cycle s' = o_cycle s /\
+  o_reports s' = o_reports s /\ o_aggs s' = o_aggs s.
+Proof.
+  unfold cycle_ok, do_rotate. intros Hc. set (len := Z.of_nat (List.length (o_cycle s))) in *.
+  set (n := if len - 1 <=? o_seq s then 0 else o_seq s + 1).
+  assert (Hn : n = (o_seq s + 1) mod len).
+  { unfold n. destruct (len - 1 <=? o_seq s) eqn:E.
+    - apply Z.leb_le in E. assert (o_seq s + 1 = len) as -> by lia. rewrite Z.mod_same; lia.
+    - apply Z.leb_gt in E. rewrite Z.mod_small; lia. }
+  destruct (nth_z (o_cycle s) n) as [qid|]; [|discriminate]. cbn [o_queries with_queries].
+  match goal with |- context [current_query qid ?l] => destruct (current_query qid l) as [m|] end.
+  - destruct (negb (m_amount m =? 0)); intros E; injection E as <-; cbn; auto.
+  - match goal with |- context [initialize_query ?a ?b] => destruct (initialize_query a b) as [[m s2]|] eqn:Ei end; [|discriminate].
+    unfold initialize_query in Ei. destruct (spec_window _ _); [|discriminate]. injection Ei as <- <-.
+    intros E; injection E as <-; cbn; auto.
+Qed.
+
+(* the cycle list moves only when the current query has no open window, and then to the next
+   entry in list order, wrapping around *)
+Theorem rotate_spec s h k s' : cycle_ok s -> rotate s h k = Some s' ->
+  s' = s \/ (open_window_p s h = false /\ o_seq s' = (o_seq s + 1) mod Z.of_nat (List.length (o_cycle s)) /\ o_cycle s' = o_cycle s).
+Proof.
+  intros Hc. unfold rotate, open_window_p. destruct (nth_z (o_cycle s) (o_seq s)) as [cur|]; [|discriminate].
+  destruct (current_query cur (o_queries s)) as [m|].
+  - destruct (h <? m_expiration m); [intros E; injection E as <-; left; reflexivity|].
+    intros E. right. destruct (do_rotate_seq _ _ _ _ Hc E) as (H1 & H2 & _). auto.
+  - intros E. right. destruct (do_rotate_seq _ _ _ _ Hc E) as (H1 & H2 & _). auto.
+Qed.
+
+Lemma rotate_frame s h k s' : cycle_ok s -> rotate s h k = Some s' ->
+  o_cycle s' = o_cycle s /\ o_reports s' = o_reports s /\ o_aggs s' = o_aggs s /\ cycle_ok s'.
+Proof.
+  intros Hc. unfold rotate. destruct (nth_z (o_cycle s) (o_seq s)) as [cur|]; [|discriminate].
+  assert (D : forall s', do_rotate s h k = Some s' -> o_cycle s' = o_cycle s /\ o_reports s' = o_reports s /\ o_aggs s' = o_aggs s /\ cycle_ok s').
+  { intros s0 E. destruct (do_rotate_seq _ _ _ _ Hc E) as (H1 & H2 & H3 & H4). repeat split; try assumption.
+    - rewrite H1. apply Z.mod_pos_bound. unfold cycle_ok in Hc. lia.
+    - rewrite H1, H2. apply Z.mod_pos_bound. unfold cycle_ok in Hc. lia. }
+  destruct (current_query cur (o_queries s)) as [m|]; [destruct (h <? m_expiration m)|]; try apply D.
+  intros E; injection E as <-. auto.
+Qed.
+
+(* ====================================================================================== *)
+(* a tip on a round that received no report stays with the query                             *)
+(* ====================================================================================== *)
+Definition tip_kept (m : qmeta) (l : list qmeta) : Prop :=
+  exists m', In m' l /\ m_qid m' = m_qid m /\ m_id m' = m_id m /\ m_amount m' = m_amount m /\ m_has_reports m' = m_has_reports m.
+
+Lemma tip_kept_refl m l : In m l -> tip_kept m l.
+Proof. intros H. exists m. auto. Qed.
+
+Lemma current_query_none qid l : current_query qid l = None -> forall y, In y l -> m_qid y <> qid.
+Proof.
+  unfold current_query.
+  assert (G : forall l acc, fold_left (fun acc y => if m_qid y =? qid then Some y else acc) l acc = None ->
+              acc = None /\ forall y, In y l -> m_qid y <> qid).
+  { induction l0 as [|y t IH]; intros acc H; cbn [fold_left] in H; [split; [exact H | intros y []]|].
+    destruct (IH _ H) as [H1 H2]. destruct (m_qid y =? qid) eqn:E; [discriminate|]. split; [exact H1|].
+    intros z [<-|Hz]; [apply Z.eqb_neq; exact E | apply H2; exact Hz]. }
+  intros H. apply (G l None H).
+Qed.
+
+Lemma do_rotate_keeps_tip s h k s' m : metas_sorted (o_queries s) -> do_rotate s h k = Some s' ->
+  In m (o_queries s) -> m_amount m <> 0 -> tip_kept m (o_queries s').
+Proof.
+  intros Hs. unfold do_rotate.
+  match goal with |- context [nth_z (o_cycle s) ?n] => destruct (nth_z (o_cycle s) n) as [qid|] end; [|discriminate].
+  cbn [o_queries with_queries]. set (l1 := clear_old qid h (o_queries s)).
+  intros E Hin Ha.
+  assert (Hin1 : In m l1).
+  { unfold l1, clear_old. apply filter_In. split; [exact Hin|]. apply Z.eqb_neq in Ha. rewrite Ha, andb_false_r. reflexivity. }
+  assert (Hs1 : metas_sorted l1) by (apply ssorted_filter; exact Hs).
+  destruct (current_query qid l1) as [m0|] eqn:Ec.
+  - destruct (negb (m_amount m0 =? 0)); [|injection E as <-; apply tip_kept_refl; exact Hin1].
+    injection E as <-. cbn [o_queries with_queries].
+    set (x := set_amount_exp m0 (m_amount m0) (if m_expiration m0 <=? h then h + m_window m0 else m_expiration m0) true).
+    destruct (meta_key_eq x m) eqn:Ek.
+    + destruct (current_query_in _ _ _ Ec) as [Hm0 _].
+      assert (m0 = m) by (eapply metas_key_unique; [exact Hs1 | exact Hm0 | exact Hin1 | exact Ek]). subst m0.
+      exists x. split; [apply meta_set_has|]. unfold x. cbn. auto.
+    + exists m. split; [apply meta_set_keeps; assumption | auto].
+  - destruct (initialize_query _ _) as [[m1 s2]|] eqn:Ei; [|discriminate].
+    unfold initialize_query in Ei. destruct (spec_window _ _); [|discriminate]. cbn [qi_id] in Ei. injection Ei as <- <-.
+    injection E as <-. cbn [o_queries with_queries m_window]. exists m. split; [|auto].
+    apply meta_set_keeps; [exact Hin1|]. unfold meta_key_eq, set_amount_exp. cbn [m_qid m_id].
+    assert (m_qid m <> qid) by (eapply current_query_none; eassumption).
+    destruct (qid =? m_qid m) eqn:E1; [apply Z.eqb_eq in E1; congruence | reflexivity].
+Qed.
+
+Theorem end_block_keeps_unreported_tip s h ts k s' m :
+  metas_sorted (o_queries s) -> end_block s h ts k = Some s' ->
+  In m (o_queries s) -> m_has_reports m = false -> m_amount m <> 0 -> tip_kept m (o_queries s').
+Proof.
+  intros Hs E Hin Hr Ha. unfold end_block in E.
+  assert (Hin1 : In m (o_queries (set_aggregated_report s h ts))).
+  { rewrite set_aggregated_report_fold, agg_fold_queries, closing_filter_simpl by exact Hs.
+    apply filter_In. split; [exact Hin|]. unfold closing. rewrite Hr. reflexivity. }
+  pose proof (set_aggregated_report_sorted s h ts Hs) as Hs1.
+  unfold rotate in E. destruct (nth_z _ _) as [cur|]; [|discriminate].
+  destruct (current_query cur _) as [m0|]; [destruct (h <? m_expiration m0)|].
+  - injection E as <-. apply tip_kept_refl. exact Hin1.
+  - eapply do_rotate_keeps_tip; eassumption.
+  - eapply do_rotate_keeps_tip; eassumption.
+Qed.
